@@ -23,7 +23,9 @@ ASSUMPTIONS = [
     "label normalisation is util.unikey (C18)"]
 TRUSTED = ["tools/skeletons/block_parse_ref_link.txt, inline_parse_link.txt"]
 
-LABELS = ["foo", "Foo Bar", "x1", "straße", "Σίσυφος", "a b c", "İstanbul", "ünï", "R2 D2", "k"]
+LABELS = ["foo", "Foo Bar", "x1", "straße", "Σίσυφος", "a b c", "İstanbul", "ünï", "R2 D2", "k",
+          # labels at the length limit of 500 characters (backslash escapes count as one) and just below it
+          "L" + "o" * 498 + "g", "m" * 499, "w " * 249 + "z", "e\\]" * 160 + "q", "a" * 480 + "\\[" * 10]
 UNDEF = ["nope", "missing label", "zz"]
 
 
@@ -32,6 +34,9 @@ def spec_key(s):
 
 
 def variant(r, l):
+    if len(l) > 400:
+        # (labels at the length limit: only spellings of the same length)
+        return r.choice([l, l.upper(), l.lower(), l.swapcase()])
     v = r.random()
     if v < 0.35:
         return l
